@@ -980,3 +980,317 @@ func RRepCap(c *core.Ctx) {
 	}
 	c.Check(found, "reduceRep / nested group loops around a capture are not merged", at, "no exit of the merging loop asks whether the child contains a capture: (?:(a{1,2}){1,2}){2} becomes (a{1,2}){2,4}, which matches the same text but ends with a different last capture of group 1 (and a different number of captures) than the pattern as written")
 }
+
+// R-REPLMASK: replacement text is never case-folded.
+// addToConcatenate serves the pattern parser and the replacement parser.  A
+// literal of a replacement string is emitted verbatim: its nodes must not
+// carry IgnoreCase (the replacement compiler rejects anything but plain
+// literals and references — "replacement pattern error").  The function is
+// evaluated for isReplacement = true and every relevant literal length
+// (0, 1, 2, 3 characters): integer comparisons on the length and the flag are
+// decided, every other condition is explored both ways, and each node
+// constructor reached must be given options with IgnoreCase masked out.
+func RReplMask(c *core.Ctx) {
+	c.Rule("R-REPLMASK", "on every path of addToConcatenate that is feasible for isReplacement = true (literal lengths 0 to 3 evaluated concretely, other conditions both ways) every RegexNode constructed is given options with IgnoreCase cleared (an `&^ IgnoreCase` / `& ^IgnoreCase` on the options argument)", 2)
+	p := c.P
+	syn := p.Pkg("syntax")
+	info := syn.TypesInfo
+	fd, _ := p.DeclOf(p.LookupFunc("syntax", "parser.addToConcatenate"))
+	ic := p.LookupObj("syntax", "IgnoreCase")
+	if fd == nil || ic == nil || fd.Type.Params == nil {
+		c.Anchor("syntax.parser.addToConcatenate / IgnoreCase")
+		return
+	}
+	c.Visit("syntax.(*parser).addToConcatenate")
+	// parameters: the int named/positioned second (length) and the bool
+	var lenP, replP types.Object
+	var ints []types.Object
+	for _, f := range fd.Type.Params.List {
+		for _, id := range f.Names {
+			o := info.ObjectOf(id)
+			if b, ok := o.Type().Underlying().(*types.Basic); ok {
+				if b.Kind() == types.Int {
+					ints = append(ints, o)
+				}
+				if b.Kind() == types.Bool {
+					replP = o
+				}
+			}
+		}
+	}
+	if len(ints) >= 2 {
+		lenP = ints[1]
+	}
+	if lenP == nil || replP == nil {
+		c.Anchor("the length and mode parameters of addToConcatenate")
+		return
+	}
+	maskedLocal := map[types.Object]bool{}
+	masked := func(e ast.Expr) bool {
+		found := false
+		if id, ok := ast.Unparen(e).(*ast.Ident); ok && maskedLocal[info.ObjectOf(id)] {
+			return true
+		}
+		ast.Inspect(e, func(y ast.Node) bool {
+			switch z := y.(type) {
+			case *ast.BinaryExpr:
+				if z.Op == token.AND_NOT {
+					if id, ok := ast.Unparen(z.Y).(*ast.Ident); ok && info.ObjectOf(id) == ic {
+						found = true
+					}
+				}
+				if z.Op == token.AND {
+					if u, ok := ast.Unparen(z.Y).(*ast.UnaryExpr); ok && u.Op == token.XOR {
+						if id, ok := ast.Unparen(u.X).(*ast.Ident); ok && info.ObjectOf(id) == ic {
+							found = true
+						}
+					}
+				}
+			}
+			return true
+		})
+		return found
+	}
+	isNodeCtor := func(call *ast.CallExpr) bool {
+		fn := core.Callee(info, call)
+		if fn == nil || fn.Pkg() != syn.Types || !strings.HasPrefix(core.BaseName(fn), "newRegexNode") {
+			return false
+		}
+		return len(call.Args) >= 2
+	}
+	// three-valued evaluation: 1 true, 0 false, -1 unknown
+	var eval func(e ast.Expr, n int64) int
+	eval = func(e ast.Expr, n int64) int {
+		e = ast.Unparen(e)
+		switch x := e.(type) {
+		case *ast.Ident:
+			if info.ObjectOf(x) == replP {
+				return 1
+			}
+		case *ast.UnaryExpr:
+			if x.Op == token.NOT {
+				switch eval(x.X, n) {
+				case 1:
+					return 0
+				case 0:
+					return 1
+				}
+			}
+		case *ast.BinaryExpr:
+			switch x.Op {
+			case token.LAND:
+				a, b := eval(x.X, n), eval(x.Y, n)
+				if a == 0 || b == 0 {
+					return 0
+				}
+				if a == 1 && b == 1 {
+					return 1
+				}
+			case token.LOR:
+				a, b := eval(x.X, n), eval(x.Y, n)
+				if a == 1 || b == 1 {
+					return 1
+				}
+				if a == 0 && b == 0 {
+					return 0
+				}
+			case token.EQL, token.NEQ, token.LSS, token.LEQ, token.GTR, token.GEQ:
+				val := func(y ast.Expr) (int64, bool) {
+					y = ast.Unparen(y)
+					if id, ok := y.(*ast.Ident); ok && info.ObjectOf(id) == lenP {
+						return n, true
+					}
+					return core.ConstInt(info, y)
+				}
+				a, ok1 := val(x.X)
+				b, ok2 := val(x.Y)
+				if ok1 && ok2 {
+					var r bool
+					switch x.Op {
+					case token.EQL:
+						r = a == b
+					case token.NEQ:
+						r = a != b
+					case token.LSS:
+						r = a < b
+					case token.LEQ:
+						r = a <= b
+					case token.GTR:
+						r = a > b
+					case token.GEQ:
+						r = a >= b
+					}
+					if r {
+						return 1
+					}
+					return 0
+				}
+			}
+		}
+		return -1
+	}
+	type finding struct {
+		pos  token.Pos
+		text string
+	}
+	var bad []finding
+	ctors := 0
+	scanCtors := func(node ast.Node) {
+		ast.Inspect(node, func(y ast.Node) bool {
+			switch z := y.(type) {
+			case *ast.IfStmt, *ast.ForStmt, *ast.RangeStmt, *ast.BlockStmt:
+				return y == node
+			case *ast.CallExpr:
+				if isNodeCtor(z) {
+					ctors++
+					if !masked(z.Args[1]) {
+						bad = append(bad, finding{z.Pos(), types.ExprString(z)})
+					}
+				}
+			}
+			return true
+		})
+	}
+	// returns true when the path has ended (return)
+	var walk func(list []ast.Stmt, n int64) bool
+	walk = func(list []ast.Stmt, n int64) bool {
+		for _, st := range list {
+			switch s := st.(type) {
+			case *ast.ReturnStmt:
+				scanCtors(s)
+				return true
+			case *ast.IfStmt:
+				v := eval(s.Cond, n)
+				endThen, endElse := false, false
+				if v != 0 {
+					endThen = walk(s.Body.List, n)
+				}
+				if v != 1 {
+					switch e := s.Else.(type) {
+					case *ast.BlockStmt:
+						endElse = walk(e.List, n)
+					case *ast.IfStmt:
+						endElse = walk([]ast.Stmt{e}, n)
+					}
+				}
+				if (v == 1 && endThen) || (v == 0 && endElse) {
+					return true
+				}
+				// unknown: continue unless both ways ended
+				if v == -1 && endThen && endElse {
+					return true
+				}
+			case *ast.AssignStmt:
+				// opts &^= IgnoreCase  /  opts = opts &^ IgnoreCase on the path
+				if len(s.Lhs) == 1 && len(s.Rhs) == 1 {
+					if id, ok := ast.Unparen(s.Lhs[0]).(*ast.Ident); ok {
+						isIC := func(e ast.Expr) bool {
+							i2, ok := ast.Unparen(e).(*ast.Ident)
+							return ok && info.ObjectOf(i2) == ic
+						}
+						if (s.Tok == token.AND_NOT_ASSIGN && isIC(s.Rhs[0])) || (s.Tok == token.ASSIGN && masked(s.Rhs[0])) {
+							maskedLocal[info.ObjectOf(id)] = true
+						} else if s.Tok == token.ASSIGN || s.Tok == token.DEFINE {
+							delete(maskedLocal, info.ObjectOf(id))
+							if s.Tok == token.DEFINE && masked(s.Rhs[0]) {
+								maskedLocal[info.ObjectOf(id)] = true
+							}
+						}
+					}
+				}
+				scanCtors(st)
+			case *ast.SwitchStmt:
+				// switch on the length: take the arm for this length (or default)
+				var arm *ast.CaseClause
+				var def *ast.CaseClause
+				decided := s.Tag != nil
+				if decided {
+					if id, ok := ast.Unparen(s.Tag).(*ast.Ident); !ok || info.ObjectOf(id) != lenP {
+						decided = false
+					}
+				}
+				for _, cs := range s.Body.List {
+					cc := cs.(*ast.CaseClause)
+					if cc.List == nil {
+						def = cc
+						continue
+					}
+					for _, e := range cc.List {
+						if decided {
+							if v, ok := core.ConstInt(info, e); ok && v == n {
+								arm = cc
+							}
+						} else if s.Tag == nil && eval(e, n) == 1 && arm == nil {
+							arm = cc
+						}
+					}
+				}
+				if s.Tag == nil {
+					// tagless: arms whose condition is unknown are explored as well
+					ended := arm != nil
+					for _, cs := range s.Body.List {
+						cc := cs.(*ast.CaseClause)
+						take := cc == arm
+						for _, e := range cc.List {
+							if eval(e, n) == -1 && arm == nil {
+								take = true
+							}
+						}
+						if cc.List == nil && arm == nil {
+							take = true
+						}
+						if take && !walk(cc.Body, n) {
+							ended = false
+						}
+					}
+					if ended && arm != nil {
+						return true
+					}
+					break
+				}
+				if !decided {
+					for _, cs := range s.Body.List {
+						walk(cs.(*ast.CaseClause).Body, n)
+					}
+					break
+				}
+				if arm == nil {
+					arm = def
+				}
+				if arm != nil && walk(arm.Body, n) {
+					return true
+				}
+			case *ast.ForStmt:
+				// `for i := pos; i < pos+len; i++`: runs iff the length is positive
+				if n > 0 {
+					walk(s.Body.List, n)
+				}
+			case *ast.RangeStmt:
+				if n > 0 {
+					walk(s.Body.List, n)
+				}
+			case *ast.BlockStmt:
+				if walk(s.List, n) {
+					return true
+				}
+			default:
+				scanCtors(st)
+			}
+		}
+		return false
+	}
+	for _, n := range []int64{0, 1, 2, 3} {
+		before := len(bad)
+		maskedLocal = map[types.Object]bool{}
+		walk(fd.Body.List, n)
+		key := fmt.Sprintf("addToConcatenate / replacement literal of %d character(s) gets nodes without IgnoreCase", n)
+		if len(bad) > before {
+			c.Bad(key, bad[before].pos, "`%s` is reached with isReplacement = true and a literal of %d character(s), and its options are not masked: under the IgnoreCase option the replacement parser produces a case-insensitive node, which the replacement compiler rejects (Replace panics with \"replacement pattern error\")", bad[before].text, n)
+		} else {
+			c.OK(key, fd.Pos(), "every node constructor reached clears IgnoreCase")
+		}
+	}
+	if ctors == 0 {
+		c.Anchor("node constructors reached in addToConcatenate")
+	}
+}
